@@ -12,13 +12,16 @@ def run_c15(run, tier, wd, binary, replay):
         os.makedirs(md)
         vlib.stage_specs(md, ["Ordering.tla", "Config.tla", "MCConfig.tla"])
         mo = 3          # (4 options over 50 option records exceed TLC's set-size limit; thorough deepens the real runs instead)
-        vlib.write_cfg(os.path.join(md, "c.cfg"), constants=dict(Scenarios="{}", Paths=PATHS, FixF5="TRUE", MaxOpts=mo),
-                       init="MCInit", next_="Next", invariants=["C15_AddKeeps", "C15_Fold", "C15_SingleSupplierVisible"],
-                       properties=["C15_AddMonotone"])
-        r = vlib.run_tlc(md, "MCConfig", "c.cfg", workers=8, timeout=3000, jvm=vlib.JVM_BIG)
-        run.add_model_run("Config: every option sequence of <= %d options x loader kinds x documents" % mo, r)
-        if not r.ok:
-            notes.append(r)
+        fams = [("built-in loader kinds, variadic calls, re-initialisation", dict(AddLKs="<- LKBuiltin", SetLKs="<- LKBuiltin", Joins="<- JoinBoth", KeySets="<- KS3")),
+                ("user-written ordered / priority loaders next to files and raw loaders", dict(AddLKs="<- LKOrdered", SetLKs="<- NoLK", Joins="<- JoinNo", KeySets="<- KS2"))]
+        for i, (what, extra) in enumerate(fams):
+            vlib.write_cfg(os.path.join(md, "c%d.cfg" % i), constants=dict(Scenarios="{}", Paths=PATHS, FixF5="TRUE", MaxOpts=mo, **extra),
+                           init="MCInit", next_="Next", invariants=["C15_AddKeeps", "C15_Fold", "C15_SingleSupplierVisible"],
+                           properties=["C15_AddMonotone"])
+            r = vlib.run_tlc(md, "MCConfig", "c%d.cfg" % i, workers=8, timeout=3000, jvm=vlib.JVM_BIG)
+            run.add_model_run("Config: every option sequence of <= %d options x documents, %s" % (mo, what), r)
+            if not r.ok:
+                notes.append(r)
     rng = random.Random(run.seed * 7 + 15)
     if replay:
         scs = [json.load(open(replay))["replay"]["scenario"]]
@@ -38,6 +41,14 @@ def run_c15(run, tier, wd, binary, replay):
                         scs.append(dict(id="w%d" % i, opts=[dict(kind="add", lk="raw", keys=["a", "c.x"], val=3, join=False),
                                                             dict(kind="init", lk="none", keys=[], val=0, join=False)] + pair))
                         i += 1
+        # a config file / raw loader next to one user-written ordered or priority loader, both supplying the same key, both orders
+        i = 0
+        for ulk in cl.USER_LKS:
+            for other in (("file", "file"), ("add", "raw"), ("add", "file")):
+                for first in (0, 1):
+                    pair = [dict(kind="add", lk=ulk, keys=["a", "b"], val=1, join=False), dict(kind=other[0], lk=other[1], keys=["a", "c.x"], val=2, join=False)]
+                    scs.append(dict(id="u%d" % i, opts=pair if first == 0 else pair[::-1]))
+                    i += 1
         if tier == "thorough":
             scs += [dict(id="d%d" % i, opts=o) for i, o in enumerate(cl.all_sequences(3, cl.KEYSETS[:2], vals=(1,)))]
         scs += [dict(id="r%d" % i, opts=cl.rand_sequence(rng, 6)) for i in range(600 if tier == "quick" else 8000)]
